@@ -13,7 +13,7 @@ touch src/lib.rs
 cargo test --workspace --no-fail-fast --offline > "$S/with_change.log" 2>&1
 # without the change: demo only
 git checkout -q -- src; touch src/lib.rs
-demos=$(ls tests | grep '^mutation2\?_demo_.*\.rs$' | sed 's/\.rs$//')
+demos=$(ls tests | grep '^mutation[0-9]\?_demo_.*\.rs$' | sed 's/\.rs$//')
 : > "$S/without_change.log"
 for d in $demos; do cargo test --offline --test "$d" >> "$S/without_change.log" 2>&1; done
 python3 - "$S" <<'PY'
